@@ -869,7 +869,38 @@ def graphics_flags(default_text, variant_text):
         i = _first_top_level(text, "createCanvas(")
         return None if i is None else text.split("\n")[i].strip()
     a, b = canvas_line(default_text), canvas_line(variant_text)
-    return {"canvas_arguments_differ": a is not None and b is not None and a != b}
+    flags = {"canvas_arguments_differ": a is not None and b is not None and a != b}
+    flags.update(input_rebound_flags(default_text, variant_text))
+    return flags
+
+
+def input_rebound_flags(default_text, variant_text):
+    """True when exactly one of the two variants ASSIGNS, at top level, a name that the other variant only reads and that
+    is read before any assignment there (a user-supplied tensor name such as A_JNKL): some order of the statements rebinds
+    the user's input variable (seen with two static flatten() directives on one input: the second partitioning swizzle is
+    emitted under the declared name while the tensor is still called <name>_flat)."""
+    import ast
+
+    def first_uses(text):
+        reads_first, assigned = set(), set()
+        try:
+            tree = ast.parse(text)
+        except SyntaxError:
+            return reads_first, assigned
+        for node in tree.body:
+            names_r = [n.id for n in ast.walk(node) if isinstance(n, ast.Name) and isinstance(n.ctx, ast.Load)]
+            names_w = [n.id for n in ast.walk(node) if isinstance(n, ast.Name) and isinstance(n.ctx, ast.Store)]
+            for n in names_r:
+                if n not in assigned:
+                    reads_first.add(n)
+            assigned.update(names_w)
+        return reads_first, assigned
+    rd, ad = first_uses(default_text)
+    rv, av = first_uses(variant_text)
+    inputs_d = set(n for n in rd if runlib.NAME_RE.match(n))
+    inputs_v = set(n for n in rv if runlib.NAME_RE.match(n))
+    rebound = (inputs_d & av) - ad | (inputs_v & ad) - av
+    return {"user_input_name_rebound_in_one_variant": bool(rebound)}
 
 
 def behaviour_checks(ctx, outcomes, tag, stats):
